@@ -53,6 +53,17 @@ CLAIMED = {
         note="Trusted: CrossHair, z3. RNG/clock stubs as in C13 (payloads <= 2 bytes); TCP loop and ISO-TP outside; bounded request lengths and histories.",
         ref="§4 C14", technique="symbolic execution of server step + client matcher with z3 (CrossHair)",
     ),
+    "C16": dict(
+        text="PARTIAL claim. Bounded symbolic execution (CrossHair + z3) of the real RandomUDSServer.randomize(): every rng.random() comparison is a "
+             "symbolic boolean and every choice a symbolic index, so all outcomes of all draws are explored for <= 3 sessions / <= 3 optional services; "
+             "mandatory sessions and services present, every offered session reachable from and returning to the default session. Two instances with the "
+             "same seed driven by the same symbolic request (RNG stub memoised on its seeding arguments by solver-checked equality) give byte-identical "
+             "replies and equal states except fresh security seeds; global random / hash() / id() are trapped on every path; stateful_rng's seeding "
+             "is a function of (seed, session, args).",
+        note="NOT claimed: cross-process identity (PYTHONHASHSEED, import order, set iteration order) - a property of CPython runs, not of a path "
+             "condition. Trusted: CrossHair, z3; RNG stub, parameter objects concrete, p_sub_function in {0,1}.",
+        ref="§4 C16", technique="symbolic execution of the real model generator and handlers with z3 (CrossHair), nondeterministic RNG stub",
+    ),
     "C02": dict(
         text="Bounded symbolic execution (CrossHair + z3) of the real UDSResponse.parse_dynamic / from_pdu / pdu code: for every first byte "
              "0x00-0xFF and every total length in the stated bound, with all remaining bytes symbolic, every path is explored and the "
